@@ -432,6 +432,11 @@ impl World {
         self.model_of(id)
     }
 
+    /// the element a rename op will resolve to
+    pub fn peek_rename(&self, o: &Op) -> Option<usize> {
+        self.pick_elem_where(o.a, o.d, |e| e.is_identifiable())
+    }
+
     /// the (element, file) an add_to_file / remove_from_file op will resolve to
     pub fn peek_elem_file(&self, o: &Op) -> Option<(usize, usize)> {
         Some((self.pick_elem(o.a, o.d)?, self.pick_file(o.b)?))
